@@ -46,6 +46,11 @@ CHECKS = {
          "Seeded omnibus histories of the real application in which every sender-controlled value (fee multiplicators, gas estimates, amounts, payload sizes, proofs of every malformed shape, nonces, versions, addresses, governance-set numbers and strings) comes from hostile generators and remains only if the chain accepted the transaction. Every FinalizeBlock is wrapped in recover()+error check; every 40 blocks each Paloma module's BeginBlock/EndBlock is additionally run on throw-away forks at the next heights = 0 mod 10/50/300/303 and at 10 000 / 15 150 / 30 300 / 303 000. Held = no abort on those executions.",
          "Only accepted-transaction states; governance-set policy numbers from a plausible range; version-gate halt not exercised; stakes bounded by realistic supply.",
          "DESIGN.md §2 C09"),
+ "C10": ("exploration", "chain+world",
+         "build-time reference model (membership, shares, ids, immutability by raw-store hashes) + exact big-integer projection oracle over real-app histories with staking churn and 10^5 generated snapshots on forks",
+         "Histories of the real app with real staking txs (delegate, undelegate, create validator, unjail), registrations (all chains, one missing, two accounts on a chain), jailing, chains added/activated/removed, attested and just-in-time valset deliveries: every snapshot id found in the raw store is compared with a reference computed from staking and registration state at build time, ids must increase, the current snapshot is the highest id, stored bytes never change except Chains growing; every UpdateValset message and 10^5-10^6 generated snapshots projected through the real code are compared with floor(2^32*share/total) in big integers and the two-thirds gate. Held = held on those snapshots and messages.",
+         "Build blocks carry no txs, so 'at build time' is the state before the block; totals >= 2^63 (a panic before the fix) belong to C09; compass hand-over not driven.",
+         "DESIGN.md §2 C10"),
  "C11": ("exploration", "chain+world",
          "metamorphic key oracle over reflected single-field mutants of every claim type + differential execution of vote/tally/handler on forked states of the real app",
          "Claim types and fields are discovered by reflection; for every single-field mutant pair the real attestation key must differ when the field is on the property's list, and a three-way differential run on forks of the real app (honest votes X / honest votes X' / byzantine X' first then honest X) through the real msg server, Attest, the skyway end-blocker and the attestation handler must show that pooled votes never produce a different effect. Held = held on the generated pairs.",
@@ -66,6 +71,11 @@ CHECKS = {
          "Requests reach the scheduler as signed txs in real blocks, as handler calls on inspected cache contexts and through the real wasm message bindings with harness-supplied contract addresses; after every request the raw scheduler store must be byte-identical for existing jobs, duplicates refused, and the target chain's queue must have gained exactly the logic calls of the successful executes (payload = stored-or-supplied body + 32-byte left-padded requester, contract, flags) and nothing after a failed one. Held = held on those requests.",
          "No wasm VM runs (the binding code is called directly); delivery of the enqueued calls is C07.",
          "DESIGN.md §2 C17"),
+ "C18": ("exploration", "chain+world",
+         "reference ledger with full expected-state prediction after every operation + standing escrow and vesting invariants + raw-store comparison around ineffective sales, on real-tx histories of the real app",
+         "Histories of direct licences and attested sales (full oracle path, exact-66% minority blocks, wrong/unconfigured contracts, unfunded funders), activation / re-activation / impostor attempts, governance reconfiguration mid-flight and time travel; after every operation the complete expected state (escrow per denom, licence list, balances, account types and vesting schedules, fee allowances, account count) is predicted from the statement and diffed against the chain; vesting is probed at start+-1, 1/4, 1/2, 3/4, end+-1 against the exact rational amount; a sale that must change nothing is checked by dumping the paloma, bank, feegrant and auth stores. Held = held on those operations.",
+         "Fee-grant delegation is chain-wide power of attorney (allowed by C03) and not generated against the escrow; calendar months computed independently.",
+         "DESIGN.md §2 C18"),
  "C19": ("exploration", "pure",
          "reference-model monitor over insert/remove/select histories of the real mempool (bounded-exhaustive + seeded random)",
          "Every history of <=5 (quick) / <=6 (thorough) operations over a 2-sender x 2-sequence x 5-class alphabet plus seeded random histories over up to 8 senders is executed against the real DefaultPriorityMempool; after every operation a map-based reference model checks count, exactly-once, per-sender nonce order and the class-priority rule. Held = held on those histories.",
